@@ -59,21 +59,23 @@ def Loc.isNone (l : Loc) : Prop :=
 
 def Loc.noComments (l : Loc) : Prop := l.detached = [] ∧ l.leading = "" ∧ l.trailing = ""
 
-def FieldD.unloc (f : FieldD) : Prop := f.loc.isNone ∧ ∀ o ∈ f.opts, o.hasLoc = false
+/-- no comments, no option with a source location of its own; the element itself may have a location (lines) -/
+def FieldD.quiet (f : FieldD) : Prop := f.loc.noComments ∧ ∀ o ∈ f.opts, o.hasLoc = false
 
 mutual
-/-- no source location anywhere (a descriptor built without `SourceCodeInfo`) -/
-def Item.unloc : Item → Prop
-  | .field f => f.unloc
-  | .rpc l _ _ _ _ os => l.isNone ∧ ∀ o ∈ os, o.hasLoc = false
-  | .block _ _ l _ _ os ks => l.isNone ∧ (∀ o ∈ os, o.hasLoc = false) ∧ unlocList ks
-def unlocList : List Item → Prop
+/-- no comment anywhere and no located option (what `j5convert` produces for a schema without descriptions, and
+any descriptor built without `SourceCodeInfo`); the elements may carry source lines -/
+def Item.quiet : Item → Prop
+  | .field f => f.quiet
+  | .rpc l _ _ _ _ os => l.noComments ∧ ∀ o ∈ os, o.hasLoc = false
+  | .block _ _ l _ _ os ks => l.noComments ∧ (∀ o ∈ os, o.hasLoc = false) ∧ quietList ks
+def quietList : List Item → Prop
   | [] => True
-  | x :: r => x.unloc ∧ unlocList r
+  | x :: r => x.quiet ∧ quietList r
 end
 
-def FileD.unloc (f : FileD) : Prop :=
-  f.loc.isNone ∧ (∀ o ∈ f.opts, o.hasLoc = false) ∧ (∀ e ∈ f.exts, e.2.unloc) ∧ unlocList f.items
+def FileD.quiet (f : FileD) : Prop :=
+  f.loc.noComments ∧ (∀ o ∈ f.opts, o.hasLoc = false) ∧ (∀ e ∈ f.exts, e.2.quiet) ∧ quietList f.items
 
 /-- the same option (name, values of the statements up to the keys the text does not carry) with a
 source location under which the printer decides as without one: a statement that can be written on
@@ -105,17 +107,21 @@ def relaid : Item → Item → Prop
   | .field f, .field f' => fieldOk f f'
   | .rpc _ _ nm a b os, .rpc l' _ nm' a' b' os' => nm' = nm ∧ a' = a ∧ b' = b ∧ l'.noComments ∧ optsOk os os'
   | .block kw t _ _ nm os ks, .block kw' t' l' _ nm' os' ks' =>
-    kw' = kw ∧ t' = t ∧ nm' = nm ∧ l'.noComments ∧ optsOk os os' ∧ relaidKids true false 0 0 0 ks ks'
+    kw' = kw ∧ t' = t ∧ nm' = nm ∧ l'.noComments ∧ optsOk os os' ∧ relaidKids true false 0 0 0 0 ks ks'
   | _, _ => False
-/-- the children in printed order: start lines increase, and two elements are further apart than
-one line only where the printer leaves a gap anyway (after a block or a method: `pg`; at a change
-of kind) -/
-def relaidKids (first pg : Bool) (prevStart lastEnd lastType : Nat) : List Item → List Item → Prop
+/-- the children in printed order: start lines increase, and `printElements` asks for a gap before an
+element of the reading exactly where it asks for one before the element it was printed from — or a gap
+is pending anyway (after a block or a method: `pg`). `lastEnd` is the end of the previous element of
+the reading, `lastEnd0` that of the previous element of the original (0 without source location). -/
+def relaidKids (first pg : Bool) (prevStart lastEnd lastEnd0 lastType : Nat) : List Item → List Item → Prop
   | [], [] => True
   | e :: r, e' :: r' =>
     relaid e e' ∧ prevStart < e'.loc.startLine ∧
-    (first = false → 0 < lastEnd → lastEnd + 1 < e'.loc.startLine → pg = true ∨ e.typeOrder ≠ lastType) ∧
-    relaidKids false e.gapEnder e'.loc.startLine e'.loc.endLine e.typeOrder r r'
+    (gapCond first lastEnd e'.loc.startLine e.typeOrder lastType = true →
+      pg = true ∨ gapCond first lastEnd0 e.loc.startLine e.typeOrder lastType = true) ∧
+    (gapCond first lastEnd0 e.loc.startLine e.typeOrder lastType = true →
+      pg = true ∨ gapCond first lastEnd e'.loc.startLine e.typeOrder lastType = true) ∧
+    relaidKids false e.gapEnder e'.loc.startLine e'.loc.endLine e.loc.endLine e.typeOrder r r'
   | _, _ => False
 end
 
@@ -124,7 +130,7 @@ def relaidFile (t d' : FileD) : Prop :=
   d'.pkg = t.pkg ∧ d'.imports = sortImports t.imports ∧ sortImports d'.imports = d'.imports ∧ d'.loc.noComments ∧
   optsOk t.opts d'.opts ∧
   t.exts.length = d'.exts.length ∧ (∀ p ∈ t.exts.zip d'.exts, p.2.1 = p.1.1 ∧ fieldOk p.1.2 p.2.2) ∧
-  relaidKids true false 0 0 0 t.items d'.items
+  relaidKids true false 0 0 0 0 t.items d'.items
 
 /-! ## no comments: the comment helpers write nothing -/
 
@@ -409,7 +415,7 @@ theorem flatten_map_strip (ls : List (List POpt)) : ls.flatten.map strip = (ls.m
   | nil => rfl
   | cons l r ih => simp [ih]
 
-theorem popts_strip_ok {f f' : FieldD} (h : fieldOk f f') (hu : f.unloc) : f'.popts.map strip = f.popts.map strip := by
+theorem popts_strip_ok {f f' : FieldD} (h : fieldOk f f') (hu : f.quiet) : f'.popts.map strip = f.popts.map strip := by
   obtain ⟨_, _, _, hname, _, hjson, _, hl, hok, _⟩ := h
   have hparsed : (f'.opts.map SOpt.parsed).flatten.map strip = (f.opts.map SOpt.parsed).flatten.map strip := by
     rw [flatten_map_strip, flatten_map_strip, List.map_map, List.map_map]
@@ -427,11 +433,11 @@ theorem popts_strip_ok {f f' : FieldD} (h : fieldOk f f') (hu : f.unloc) : f'.po
     · rw [List.map_append, List.map_append, sortByName_strip, sortByName_strip, hparsed]
     · rw [sortByName_strip, sortByName_strip, hparsed]
 
-theorem fieldCmds_ok (n : Nat) {f f' : FieldD} (h : fieldOk f f') (hu : f.unloc) :
+theorem fieldCmds_ok (n : Nat) {f f' : FieldD} (h : fieldOk f f') (hu : f.quiet) :
     fieldCmds n f' = fieldCmds n f := by
   have hstrip := popts_strip_ok h hu
   obtain ⟨hk, hlab, hty, hname, hnum, hjson, hnc, hl, hok, hinl⟩ := h
-  have hnc0 := hu.1.noComments
+  have hnc0 := hu.1
   unfold fieldCmds
   rw [leadingCmds_noComments n hnc, leadingCmds_noComments n hnc0, trailingCmds_noComments n hnc,
     trailingCmds_noComments n hnc0, inlineComment_noComments hnc, inlineComment_noComments hnc0]
@@ -465,7 +471,7 @@ theorem fieldCmds_ok (n : Nat) {f f' : FieldD} (h : fieldOk f f') (hu : f.unloc)
 /-- the pending gap left by the previous element -/
 def pgC (pg : Bool) : List Cmd := if pg then [Cmd.gap] else []
 
-theorem Item.unloc_loc : ∀ (e : Item), e.unloc → e.loc.isNone
+theorem Item.quiet_loc : ∀ (e : Item), e.quiet → e.loc.noComments
   | .field _, h => h.1
   | .rpc _ _ _ _ _ _, h => h.1
   | .block _ _ _ _ _ _ _, h => h.1
@@ -483,8 +489,8 @@ theorem relaid_typeOrder : ∀ (e e' : Item), relaid e e' → e'.typeOrder = e.t
   | .block _ _ _ _ _ _ _, .field _, h => by simp [relaid] at h
   | .block _ _ _ _ _ _ _, .rpc _ _ _ _ _ _, h => by simp [relaid] at h
 
-theorem relaidKids_isEmpty (first pg : Bool) (ps le lt : Nat) :
-    ∀ (es es' : List Item), relaidKids first pg ps le lt es es' → es'.isEmpty = es.isEmpty
+theorem relaidKids_isEmpty (first pg : Bool) (ps le le0 lt : Nat) :
+    ∀ (es es' : List Item), relaidKids first pg ps le le0 lt es es' → es'.isEmpty = es.isEmpty
   | [], [], _ => rfl
   | [], _ :: _, h => by simp [relaidKids] at h
   | _ :: _, [], h => by simp [relaidKids] at h
@@ -500,50 +506,27 @@ theorem itemCmds_split (n : Nat) : ∀ e : Item, ∃ body, itemCmds n e = body +
   | .rpc _ _ _ _ _ _ => ⟨_, by simp only [itemCmds, pgC, Item.gapEnder, if_true]; rfl⟩
   | .block _ _ _ _ _ _ _ => ⟨_, by simp only [itemCmds, pgC, Item.gapEnder, if_true]; rfl⟩
 
-/-- the gap before an element: with locations the printer asks for one more often, but only where
-one is pending anyway -/
-theorem gap_prefix_ok (pg first : Bool) (le s t lt : Nat)
-    (h : first = false → 0 < le → le + 1 < s → pg = true ∨ t ≠ lt) :
-    Equiv (pgC pg ++ (if (!first && ((decide (le > 0) && decide (s > le + 1)) || t != lt)) = true then [Cmd.gap] else []))
-          (pgC pg ++ (if (!first && ((decide (0 > 0) && decide (0 > 0 + 1)) || t != lt)) = true then [Cmd.gap] else [])) := by
-  cases first with
-  | true => exact Equiv.refl _
-  | false =>
-    by_cases ht : t = lt
-    · subst ht
-      by_cases h1 : 0 < le
-      · by_cases h2 : le + 1 < s
-        · have hp : pg = true := by
-            rcases h rfl h1 h2 with hp | hp
-            · exact hp
-            · exact absurd rfl hp
-          subst hp
-          simp only [pgC, if_true, Bool.not_false, Bool.true_and, h1, h2, decide_true, Bool.and_self,
-            Bool.true_or, List.cons_append, List.nil_append, bne_self_eq_false, Bool.or_false]
-          simp only [show decide ((0 : Nat) > 0) = false by decide, Bool.false_and, Bool.false_eq_true, if_false]
-          exact Equiv.gap_gap
-        · simp [h2]
-          exact Equiv.refl _
-      · simp [h1]
-        exact Equiv.refl _
-    · have : (t != lt) = true := by simp [ht]
-      simp only [this, Bool.or_true]
-      exact Equiv.refl _
+/-- the gap before an element: the two runs may ask for it under different conditions, as long as
+they differ only where a gap is pending anyway -/
+theorem gap_prefix_ok (pg a b : Bool) (h1 : a = true → pg = true ∨ b = true) (h2 : b = true → pg = true ∨ a = true) :
+    Equiv (pgC pg ++ (if a = true then [Cmd.gap] else [])) (pgC pg ++ (if b = true then [Cmd.gap] else [])) := by
+  cases pg <;> cases a <;> cases b <;> simp_all [pgC]
+  all_goals first | exact Equiv.refl _ | exact Equiv.gap_gap | exact Equiv.gap_gap.symm
 
 theorem flatten_congr {γ : Type} {l l' : List (List γ)} (h : l = l') : l.flatten = l'.flatten := by rw [h]
 
 mutual
-theorem itemCmds_ok : ∀ (n : Nat) (e e' : Item), relaid e e' → e.unloc → Equiv (itemCmds n e') (itemCmds n e)
+theorem itemCmds_ok : ∀ (n : Nat) (e e' : Item), relaid e e' → e.quiet → Equiv (itemCmds n e') (itemCmds n e)
   | n, .field f, .field f', h, hu => by
     simp only [relaid] at h
-    simp only [Item.unloc] at hu
+    simp only [Item.quiet] at hu
     simp only [itemCmds]
     exact Equiv.of_eq (fieldCmds_ok n h hu)
   | n, .rpc l _ nm a b os, .rpc l' _ nm' a' b' os', h, hu => by
     simp only [relaid] at h
-    simp only [Item.unloc] at hu
+    simp only [Item.quiet] at hu
     obtain ⟨hnm, ha, hb, hnc, hos⟩ := h
-    have hnc0 := hu.1.noComments
+    have hnc0 := hu.1
     simp only [itemCmds]
     rw [leadingCmds_noComments n hnc, leadingCmds_noComments n hnc0, trailingCmds_noComments n hnc,
       trailingCmds_noComments n hnc0, inlineComment_noComments hnc, inlineComment_noComments hnc0,
@@ -552,15 +535,15 @@ theorem itemCmds_ok : ∀ (n : Nat) (e e' : Item), relaid e e' → e.unloc → E
     exact Equiv.refl _
   | n, .block kw t l _ nm os ks, .block kw' t' l' _ nm' os' ks', h, hu => by
     simp only [relaid] at h
-    simp only [Item.unloc] at hu
+    simp only [Item.quiet] at hu
     obtain ⟨hkw, ht, hnm, hnc, hos, hks⟩ := h
-    have hnc0 := hu.1.noComments
-    have hkids := elemsCmds_ok (n + 1) ks ks' true false 0 0 0 hks hu.2.2
+    have hnc0 := hu.1
+    have hkids := elemsCmds_ok (n + 1) ks ks' true false 0 0 0 0 hks hu.2.2
     simp only [pgC, Bool.false_eq_true, if_false, List.nil_append] at hkids
     simp only [itemCmds]
     rw [leadingCmds_noComments n hnc, leadingCmds_noComments n hnc0, trailingCmds_noComments (n + 1) hnc,
       trailingCmds_noComments (n + 1) hnc0, inlineComment_noComments hnc, inlineComment_noComments hnc0,
-      hkw, hnm, optsOk_isEmpty hos, relaidKids_isEmpty _ _ _ _ _ ks ks' hks, hnc.2.2, hnc0.2.2,
+      hkw, hnm, optsOk_isEmpty hos, relaidKids_isEmpty _ _ _ _ _ _ ks ks' hks, hnc.2.2, hnc0.2.2,
       sortOpts_map_ok (fun o => optionCmds (n + 1) o ++ [Cmd.gap]) os os' hos hu.2.1
         (fun o o' hk hh => by rw [optionCmds_ok (n + 1) hk hh])]
     apply Equiv.append _ (Equiv.refl _)
@@ -576,24 +559,23 @@ theorem itemCmds_ok : ∀ (n : Nat) (e e' : Item), relaid e e' → e.unloc → E
   | _, .rpc _ _ _ _ _ _, .block _ _ _ _ _ _ _, h, _ => by simp [relaid] at h
   | _, .block _ _ _ _ _ _ _, .field _, h, _ => by simp [relaid] at h
   | _, .block _ _ _ _ _ _ _, .rpc _ _ _ _ _ _, h, _ => by simp [relaid] at h
-theorem elemsCmds_ok : ∀ (n : Nat) (es es' : List Item) (first pg : Bool) (ps le lt : Nat),
-    relaidKids first pg ps le lt es es' → unlocList es →
-    Equiv (pgC pg ++ elemsCmds n es' first le lt) (pgC pg ++ elemsCmds n es first 0 lt)
-  | _, [], [], _, _, _, _, _, _, _ => Equiv.refl _
-  | _, [], _ :: _, _, _, _, _, _, h, _ => by simp [relaidKids] at h
-  | _, _ :: _, [], _, _, _, _, _, h, _ => by simp [relaidKids] at h
-  | n, e :: r, e' :: r', first, pg, ps, le, lt, h, hu => by
+theorem elemsCmds_ok : ∀ (n : Nat) (es es' : List Item) (first pg : Bool) (ps le le0 lt : Nat),
+    relaidKids first pg ps le le0 lt es es' → quietList es →
+    Equiv (pgC pg ++ elemsCmds n es' first le lt) (pgC pg ++ elemsCmds n es first le0 lt)
+  | _, [], [], _, _, _, _, _, _, _, _ => Equiv.refl _
+  | _, [], _ :: _, _, _, _, _, _, _, h, _ => by simp [relaidKids] at h
+  | _, _ :: _, [], _, _, _, _, _, _, h, _ => by simp [relaidKids] at h
+  | n, e :: r, e' :: r', first, pg, ps, le, le0, lt, h, hu => by
     simp only [relaidKids] at h
-    simp only [unlocList] at hu
-    obtain ⟨hre, _, hgap, hkids⟩ := h
-    have hloc := Item.unloc_loc e hu.1
+    simp only [quietList] at hu
+    obtain ⟨hre, _, hgap1, hgap2, hkids⟩ := h
     have hitem := itemCmds_ok n e e' hre hu.1
-    have hrest := elemsCmds_ok n r r' false e.gapEnder e'.loc.startLine e'.loc.endLine e.typeOrder hkids hu.2
+    have hrest := elemsCmds_ok n r r' false e.gapEnder e'.loc.startLine e'.loc.endLine e.loc.endLine e.typeOrder hkids hu.2
     obtain ⟨body, hbody⟩ := itemCmds_split n e
     simp only [elemsCmds]
-    rw [relaid_typeOrder e e' hre, hloc.1, hloc.2.1]
+    rw [relaid_typeOrder e e' hre]
     -- the gap before the element
-    have hg := gap_prefix_ok pg first le e'.loc.startLine e.typeOrder lt hgap
+    have hg := gap_prefix_ok pg _ _ hgap1 hgap2
     rw [← List.append_assoc, ← List.append_assoc, ← List.append_assoc, ← List.append_assoc]
     rw [List.append_assoc (pgC pg ++ _) (itemCmds n e'), List.append_assoc (pgC pg ++ _) (itemCmds n e)]
     apply Equiv.append hg
@@ -683,14 +665,14 @@ theorem sortItems_inc (l : List Item) (ps : Nat) (h : incStarts ps l) : sortItem
   rw [foldl_insStep_inc l [] ps h (by simp)]
   simp
 
-theorem relaidKids_inc (first pg : Bool) (ps le lt : Nat) :
-    ∀ (es es' : List Item), relaidKids first pg ps le lt es es' → incStarts ps es'
+theorem relaidKids_inc (first pg : Bool) (ps le le0 lt : Nat) :
+    ∀ (es es' : List Item), relaidKids first pg ps le le0 lt es es' → incStarts ps es'
   | [], [], _ => trivial
   | [], _ :: _, h => by simp [relaidKids] at h
   | _ :: _, [], h => by simp [relaidKids] at h
   | e :: r, e' :: r', h => by
     simp only [relaidKids] at h
-    exact ⟨h.2.1, relaidKids_inc false e.gapEnder _ _ _ r r' h.2.2.2⟩
+    exact ⟨h.2.1, relaidKids_inc false e.gapEnder _ _ _ _ r r' h.2.2.2.2⟩
 
 mutual
 theorem arrange_relaid : ∀ (e e' : Item), relaid e e' → arrange e' = e'
@@ -700,22 +682,22 @@ theorem arrange_relaid : ∀ (e e' : Item), relaid e e' → arrange e' = e'
     simp only [relaid] at h
     have hks := h.2.2.2.2.2
     simp only [arrange]
-    rw [arrangeList_relaid ks ks' true false 0 0 0 hks, sortItems_inc ks' 0 (relaidKids_inc _ _ _ _ _ ks ks' hks)]
+    rw [arrangeList_relaid ks ks' true false 0 0 0 0 hks, sortItems_inc ks' 0 (relaidKids_inc _ _ _ _ _ _ ks ks' hks)]
   | .field _, .rpc _ _ _ _ _ _, h => by simp [relaid] at h
   | .field _, .block _ _ _ _ _ _ _, h => by simp [relaid] at h
   | .rpc _ _ _ _ _ _, .field _, h => by simp [relaid] at h
   | .rpc _ _ _ _ _ _, .block _ _ _ _ _ _ _, h => by simp [relaid] at h
   | .block _ _ _ _ _ _ _, .field _, h => by simp [relaid] at h
   | .block _ _ _ _ _ _ _, .rpc _ _ _ _ _ _, h => by simp [relaid] at h
-theorem arrangeList_relaid : ∀ (es es' : List Item) (first pg : Bool) (ps le lt : Nat),
-    relaidKids first pg ps le lt es es' → arrangeList es' = es'
-  | [], [], _, _, _, _, _, _ => rfl
-  | [], _ :: _, _, _, _, _, _, h => by simp [relaidKids] at h
-  | _ :: _, [], _, _, _, _, _, h => by simp [relaidKids] at h
-  | e :: r, e' :: r', _, _, _, _, _, h => by
+theorem arrangeList_relaid : ∀ (es es' : List Item) (first pg : Bool) (ps le le0 lt : Nat),
+    relaidKids first pg ps le le0 lt es es' → arrangeList es' = es'
+  | [], [], _, _, _, _, _, _, _ => rfl
+  | [], _ :: _, _, _, _, _, _, _, h => by simp [relaidKids] at h
+  | _ :: _, [], _, _, _, _, _, _, h => by simp [relaidKids] at h
+  | e :: r, e' :: r', _, _, _, _, _, _, h => by
     simp only [relaidKids] at h
     simp only [arrangeList]
-    rw [arrange_relaid e e' h.1, arrangeList_relaid r r' _ _ _ _ _ h.2.2.2]
+    rw [arrange_relaid e e' h.1, arrangeList_relaid r r' _ _ _ _ _ _ h.2.2.2.2]
 end
 
 /-! ## the whole file -/
@@ -723,18 +705,18 @@ end
 /-- **Printing is a fixed point.** `t`: an arranged file without source information; `d'`: the same
 file with the locations (and without the comments) of its own printed text. The printer writes the
 same lines for both. -/
-theorem printFile_relaid (gen : String) (t d' : FileD) (hu : t.unloc) (hr : relaidFile t d') :
+theorem printFile_relaid (gen : String) (t d' : FileD) (hu : t.quiet) (hr : relaidFile t d') :
     printFile gen d' = run (fileCmds gen t) false := by
   obtain ⟨hpkg, himp, himps, hnc, hopts, hel, hexts, hitems⟩ := hr
   obtain ⟨huloc, huopts, huexts, huitems⟩ := hu
   have harr : d'.arranged = d' := by
     unfold FileD.arranged
-    rw [arrangeList_relaid t.items d'.items true false 0 0 0 hitems,
-      sortItems_inc d'.items 0 (relaidKids_inc _ _ _ _ _ t.items d'.items hitems)]
+    rw [arrangeList_relaid t.items d'.items true false 0 0 0 0 hitems,
+      sortItems_inc d'.items 0 (relaidKids_inc _ _ _ _ _ _ t.items d'.items hitems)]
   unfold printFile
   rw [harr]
   apply Equiv.run_eq
-  have hkids := elemsCmds_ok 0 t.items d'.items true false 0 0 0 hitems huitems
+  have hkids := elemsCmds_ok 0 t.items d'.items true false 0 0 0 0 hitems huitems
   simp only [pgC, Bool.false_eq_true, if_false, List.nil_append] at hkids
   have hextsEq : d'.exts.map (fun e => (e.1, fieldCmds 1 e.2)) = t.exts.map (fun e => (e.1, fieldCmds 1 e.2)) := by
     apply map_eq_of_zip _ _ t.exts d'.exts hel
@@ -752,50 +734,50 @@ theorem printFile_relaid (gen : String) (t d' : FileD) (hu : t.unloc) (hr : rela
       generalize isort _ xs = l
       cases l <;> simp [insertBy] <;> split <;> simp
   unfold fileCmds
-  rw [hempty, himps, hpkg, himp, leadingCmds_noComments 0 hnc, leadingCmds_noComments 0 huloc.noComments, hextsEq,
+  rw [hempty, himps, hpkg, himp, leadingCmds_noComments 0 hnc, leadingCmds_noComments 0 huloc, hextsEq,
     sortOpts_map_ok (optionCmds 0) t.opts d'.opts hopts huopts (fun o o' hk hh => optionCmds_ok 0 hk hh)]
   exact Equiv.append (Equiv.refl _) hkids
 
 /-! ## arranging keeps a file free of locations -/
 
-theorem unlocList_iff : ∀ l : List Item, unlocList l ↔ ∀ x ∈ l, x.unloc
-  | [] => by simp [unlocList]
-  | x :: r => by simp [unlocList, unlocList_iff r]
+theorem quietList_iff : ∀ l : List Item, quietList l ↔ ∀ x ∈ l, x.quiet
+  | [] => by simp [quietList]
+  | x :: r => by simp [quietList, quietList_iff r]
 
 mutual
-theorem arrange_unloc : ∀ e : Item, e.unloc → (arrange e).unloc
+theorem arrange_quiet : ∀ e : Item, e.quiet → (arrange e).quiet
   | .field _, h => h
   | .rpc _ _ _ _ _ _, h => h
   | .block _ _ _ _ _ _ ks, h => by
-    simp only [Item.unloc] at h
-    simp only [arrange, Item.unloc]
+    simp only [Item.quiet] at h
+    simp only [arrange, Item.quiet]
     refine ⟨h.1, h.2.1, ?_⟩
-    rw [unlocList_iff]
+    rw [quietList_iff]
     intro x hx
     unfold sortItems at hx
     rw [mem_goSort] at hx
-    exact (unlocList_iff _).mp (arrangeList_unloc ks h.2.2) x hx
-theorem arrangeList_unloc : ∀ l : List Item, unlocList l → unlocList (arrangeList l)
+    exact (quietList_iff _).mp (arrangeList_quiet ks h.2.2) x hx
+theorem arrangeList_quiet : ∀ l : List Item, quietList l → quietList (arrangeList l)
   | [], _ => trivial
   | x :: r, h => by
-    simp only [unlocList] at h
-    simp only [arrangeList, unlocList]
-    exact ⟨arrange_unloc x h.1, arrangeList_unloc r h.2⟩
+    simp only [quietList] at h
+    simp only [arrangeList, quietList]
+    exact ⟨arrange_quiet x h.1, arrangeList_quiet r h.2⟩
 end
 
-theorem FileD.arranged_unloc (d : FileD) (h : d.unloc) : d.arranged.unloc := by
+theorem FileD.arranged_quiet (d : FileD) (h : d.quiet) : d.arranged.quiet := by
   obtain ⟨h1, h2, h3, h4⟩ := h
   refine ⟨h1, h2, h3, ?_⟩
   unfold FileD.arranged
   simp only []
-  rw [unlocList_iff]
+  rw [quietList_iff]
   intro x hx
   unfold sortItems at hx
   rw [mem_goSort] at hx
-  exact (unlocList_iff _).mp (arrangeList_unloc d.items h4) x hx
+  exact (quietList_iff _).mp (arrangeList_quiet d.items h4) x hx
 
-theorem printFile_reprint (gen : String) (d d' : FileD) (hu : d.unloc) (hr : relaidFile d.arranged d') :
+theorem printFile_reprint (gen : String) (d d' : FileD) (hu : d.quiet) (hr : relaidFile d.arranged d') :
     printFile gen d' = printFile gen d :=
-  printFile_relaid gen d.arranged d' (FileD.arranged_unloc d hu) hr
+  printFile_relaid gen d.arranged d' (FileD.arranged_quiet d hu) hr
 
 end J5V.Print.Layout
